@@ -178,6 +178,8 @@ func (w *world) describe() map[string]any {
 type storeHook struct {
 	cs  *caseState
 	ctx func() context.Context
+	// onOp runs at the start of every round-store operation (whoever calls it)
+	onOp func()
 }
 
 // beforeWrite counts a store write and freezes the caller when this is the
@@ -300,6 +302,9 @@ func (s *roundStoreW) SaveRoundReplayedHeader(ctx context.Context, h tmconsensus
 }
 
 func (s *roundStoreW) OverwriteRoundPrevoteProofs(ctx context.Context, h uint64, r uint32, p tmconsensus.SparseSignatureCollection) error {
+	if s.onOp != nil {
+		s.onOp()
+	}
 	if err := s.beforeWrite("prevotes"); err != nil {
 		return err
 	}
@@ -309,6 +314,9 @@ func (s *roundStoreW) OverwriteRoundPrevoteProofs(ctx context.Context, h uint64,
 }
 
 func (s *roundStoreW) OverwriteRoundPrecommitProofs(ctx context.Context, h uint64, r uint32, p tmconsensus.SparseSignatureCollection) error {
+	if s.onOp != nil {
+		s.onOp()
+	}
 	if err := s.beforeWrite("precommits"); err != nil {
 		return err
 	}
@@ -318,6 +326,9 @@ func (s *roundStoreW) OverwriteRoundPrecommitProofs(ctx context.Context, h uint6
 }
 
 func (s *roundStoreW) LoadRoundState(ctx context.Context, h uint64, r uint32) ([]tmconsensus.ProposedHeader, tmconsensus.SparseSignatureCollection, tmconsensus.SparseSignatureCollection, error) {
+	if s.onOp != nil {
+		s.onOp()
+	}
 	return s.in.LoadRoundState(ctx, h, r)
 }
 
@@ -470,14 +481,28 @@ type node struct {
 	// snapshot destinations: 0 = a fresh value per call; 1 = one value per view kept and passed
 	// again (what the doc comments of VotingView/CommittingView recommend, to save garbage);
 	// 2 = one single value passed alternately to VotingView and CommittingView
+	// abandonNext makes the next Handle*Proofs call one whose caller gives up while the request
+	// is being worked on: its context is cancelled at the next round-store operation (for a
+	// future-round vote that is the kernel, between taking the request and answering it), as a
+	// p2p layer with per-message deadlines or a disconnecting peer does.
+	abandonNext atomic.Bool
+	abandon     atomic.Pointer[context.CancelFunc]
+
 	dstMode      int
 	dstMu        sync.Mutex
 	dstVV, dstCV tmconsensus.VersionedRoundView
 }
 
+func (n *node) storeOp() {
+	if c := n.abandon.Swap(nil); c != nil {
+		(*c)()
+		n.cs.count("abandoned-call.context-cancelled-at-a-round-store-operation")
+	}
+}
+
 func newNode(ctx context.Context, cs *caseState) *node {
 	n := &node{cs: cs, w: cs.w, rootCtx: ctx}
-	hook := storeHook{cs: cs, ctx: func() context.Context { return n.ctx }}
+	hook := storeHook{cs: cs, ctx: func() context.Context { return n.ctx }, onOp: n.storeOp}
 	n.ms = &mirrorStoreW{hook, tmmemstore.NewMirrorStore()}
 	n.hs = &headerStoreW{hook, tmmemstore.NewCommittedHeaderStore()}
 	n.rs = &roundStoreW{hook, tmmemstore.NewRoundStore()}
@@ -1009,6 +1034,10 @@ func (n *node) deliverPrevotesHeld(p tmconsensus.PrevoteSparseProof, hold *voteH
 	if hold != nil {
 		ctx = context.WithValue(ctx, voteHoldKey{}, hold)
 	}
+	if n.abandonNext.CompareAndSwap(true, false) {
+		n.abandon.Store(&cancel)
+		defer n.abandon.Store(nil)
+	}
 	var res tmconsensus.HandleVoteProofsResult
 	var pn bool
 	var key, msg, stack string
@@ -1049,6 +1078,10 @@ func (n *node) deliverPrecommitsHeld(p tmconsensus.PrecommitSparseProof, hold *v
 	defer cancel()
 	if hold != nil {
 		ctx = context.WithValue(ctx, voteHoldKey{}, hold)
+	}
+	if n.abandonNext.CompareAndSwap(true, false) {
+		n.abandon.Store(&cancel)
+		defer n.abandon.Store(nil)
 	}
 	var res tmconsensus.HandleVoteProofsResult
 	var pn bool
